@@ -18,8 +18,11 @@ namespace planners
     };
     const std::vector<Info> &geometric();
     const Info *findGeometric(const std::string &name);
-    // nn: "" (planner default) | gnat | gnat_nts | linear | sqrt   (ignored by planners without setNearestNeighbors)
-    ob::PlannerPtr makeGeometric(const std::string &name, const ob::SpaceInformationPtr &si, const std::string &nn);
+    ob::PlannerPtr makeGeometric(const std::string &name, const ob::SpaceInformationPtr &si);
+    // nn: "" (planner default) | gnat | gnat_nts | linear | sqrt   (ignored by planners without a usable
+    // setNearestNeighbors<>). Call it after setProblemDefinition() + setup(): several planners' setNearestNeighbors
+    // dereference members that only setup() creates (e.g. TRRT), which is an API wart outside the listed properties.
+    void applyNearestNeighbors(const std::string &name, ob::Planner *p, const std::string &nn);
 
     const std::vector<Info> &control();
     ob::PlannerPtr makeControl(const std::string &name, const ompl::control::SpaceInformationPtr &si);
